@@ -11,7 +11,8 @@ CONSTANTS CmdPool,     \* commands [named : BOOLEAN, rc : Nat, writes : SUBSET F
           Files, Requested, MaxCmds, Deviations,
           Forms        \* how the optional fields of the JobInput are given: "full" | "nofiles_none" | "nofiles_empty" |
                        \* "noenv_none" | "noenv_empty" | "noret_none" | "noret_empty"  (omitted / None vs explicitly empty) |
-                       \* "rel_out" | "rel_scratch" | "rel_job" (how the runner is started: relative paths) - none of them changes the result
+                       \* "rel_out" | "rel_scratch" | "rel_job" (how the runner is started: relative paths) |
+                       \* "env_path" (the job's environment overrides PATH; programs are looked up there) - none of them changes the result
 VARIABLES cmds,      \* the job's command list
           form,      \* the form of the optional fields
           pc,        \* "choose" | "files" | "loop" | "collect" | "done"
